@@ -18,5 +18,7 @@ pub assume_specification<'a, T: Copy>[Option::<&'a T>::copied](o: Option<&'a T>)
     ensures r == (match o { Some(x) => Some(*x), None => None });
 pub assume_specification<T: Default>[std::mem::take](t: &mut T) -> (r: T)
     ensures r == *old(t);
+pub assume_specification<T>[std::mem::replace](dest: &mut T, src: T) -> (r: T)
+    ensures r == *old(dest), *final(dest) == src;
 #[verifier::external_body]
 pub fn vx_unreached<T>() -> T requires false { unimplemented!() }
